@@ -262,6 +262,11 @@ class ParametriseTransformation(Transformation):
                 else:
                     dic2p = {}
 
+        # at an entry point only dummy arguments are parametrised, never a local variable that happens to have the
+        # name of a variable that is parametrised at another entry point
+        if process_entry_point:
+            dic2p = {key: value for key, value in dic2p.items() if key in routine.arguments}
+
         vars2p = list(dic2p)
 
         # proceed if dictionary with mapping of variables to parametrised is not empty
